@@ -201,6 +201,14 @@ def main(tier):
     nres = pmap(normalisers.run_normaliser, ntasks)
     for r in results:
         agg.add(r)
+    # (c) the walk over the syntax tree (model trees): exactly the comment nodes, once, in document order
+    from . import treewalk
+    wres = treewalk.run_all(tier)
+    for r in wres:
+        r2 = dict(r)
+        r2['violations'] = [v for v in r.get('violations', []) if v['role'] in ('walk-misses-or-repeats-comments', 'comment-geometry-wrong')]
+        r2['samples'] = []
+        agg.add(r2)
     for r in nres:
         r2 = dict(r)
         r2['samples'] = [s for s in r.get('samples', [])][:1]
@@ -212,7 +220,10 @@ def main(tier):
     for role, vs in sorted(by_role.items()):
         got = None
         for i, v in enumerate(vs[:6]):
-            if 'closure' in v:
+            if v.get('walk'):
+                from . import treewalk
+                treewalk.confirm_walk(binary, PROP, v, i)
+            elif 'closure' in v:
                 # normaliser post-condition violations: solver-decided on the MIR; the observable effect is a
                 # shifted column, shown in the replay directory
                 confirm_norm(binary, v, i)
@@ -255,8 +266,8 @@ def main(tier):
         assumptions=['tree-sitter: which nodes exist, their kinds and ranges are a stub (arbitrary ordered, non-overlapping comments); hence "never inside string literals", "in every language", CRLF handling inside tree-sitter are outside',
                      'the winnow tag parser is replaced by the event list of each comment template (attributes as written: C05, not applicable)',
                      'normalisers: ASCII comment text over per-form alphabets, opener assumed, closer not'],
-        stubs=['tree_sitter::Node (kind + byte range)', 'WinnowBlockTagParser::next (event list)'],
-        must_cover=['paired', 'two or more blocks', 'start and end tag in one comment', 'normalised'],
+        stubs=['tree_sitter::Node (kind + byte range)', 'tree_sitter::{Parser, Tree, TreeCursor} over model trees'],
+        must_cover=['paired', 'two or more blocks', 'start and end tag in one comment', 'normalised', 'tree walk'],
         explanation='reference pairing and positions as Z3 terms over the symbolic geometry: PC∧(field≠reference) asked per block field on every path; normaliser output compared bytewise with its input')
 
 
